@@ -747,7 +747,7 @@ pub fn run(ctx: &Ctx) {
     ctx.assume("the stored width/height of a hidden column/row is not observable and not compared");
     ctx.assume("the UserModel's lengthening of the offset across hidden lines is accepted when it has the sign of the request, is not shorter, and the band holds at most |offset| visible lines");
     let cases = match ctx.tier {
-        Tier::Quick => 8000,
+        Tier::Quick => 24000,
         Tier::Thorough => 250000,
     };
     let avoid = avoid_from(ctx);
